@@ -1,0 +1,38 @@
+//go:build verif
+
+package caching
+
+// Contracts for gvc (see /verif/DESIGN.md). Comment-only: this file adds no code to any build.
+
+//@ func addEntity props C19,C14
+//@ requires cache != nil && visitedCache != nil
+//@ modifies elems(cache), elems(visitedCache)
+//@ ensures dup: implies(old(indom(cache, key)), result != nil && cache[key] == old(cache[key]) && indom(visitedCache, key) == old(indom(visitedCache, key)))
+//@ ensures add: implies(!old(indom(cache, key)), result == nil && indom(cache, key) && cache[key] == meta && indom(visitedCache, key))
+//@ ensures others: forall(k, graphs.SymbolKey, implies(k != key, indom(cache, k) == old(indom(cache, k)) && cache[k] == old(cache[k]) && indom(visitedCache, k) == old(indom(visitedCache, k))))
+
+//@ func MetadataCache.HasVisited props C19,C14
+//@ requires c != nil
+//@ ensures result == indom(c.visited, key)
+
+//@ func MetadataCache.HasReceiver props C19,C14
+//@ requires c != nil
+//@ ensures result == (indom(c.receivers, key) && c.receivers[key] != nil)
+
+//@ func MetadataCache.GetReceiver props C19,C14
+//@ requires c != nil
+//@ ensures result == c.receivers[key]
+
+//@ func MetadataCache.StartMaterializing props C19,C14
+//@ requires c != nil && c.inProgress != nil && c.inProgress != c.visited
+//@ modifies elems(c.inProgress)
+//@ ensures result == (!old(indom(c.visited, key)) && !old(indom(c.inProgress, key)))
+//@ ensures implies(result, indom(c.inProgress, key))
+//@ ensures forall(k, graphs.SymbolKey, implies(k != key || !result, indom(c.inProgress, k) == old(indom(c.inProgress, k))))
+
+//@ func MetadataCache.FinishMaterializing props C19,C14
+//@ requires c != nil && c.visited != nil && c.inProgress != c.visited
+//@ modifies elems(c.inProgress), elems(c.visited)
+//@ ensures !indom(c.inProgress, key)
+//@ ensures indom(c.visited, key) == (success || old(indom(c.visited, key)))
+//@ ensures forall(k, graphs.SymbolKey, implies(k != key, indom(c.inProgress, k) == old(indom(c.inProgress, k)) && indom(c.visited, k) == old(indom(c.visited, k))))
